@@ -329,3 +329,23 @@ Definition check_clear (k : clear) (num : nat) (tp fp : Q) (sw : nat) (score : Q
 
 Definition check_sum (ks : list clear) (mota motp : option Q) (sw : nat) : bool :=
   let '(a, p, s) := sum_clear ks in oq_close a mota && oq_close p motp && Nat.eqb s sw.
+
+(* ---------------------------------------------------------------------------------------------
+   The other reading of "the pairing a TP had in the previous frame": a previous result is a TP by
+   its OWN label's threshold (and only if its label is evaluated at all).  The code judges the
+   previous result with the CURRENT result's threshold instead (C05_prev_tp_by_own_label_refuted).
+   --------------------------------------------------------------------------------------------- *)
+Definition is_tp_own (m : mode) (T : targets) (p : result) : bool :=
+  match label_threshold T (thr_label p) with Some t' => is_correct m t' p | None => false end.
+
+Definition spec_tp_own (m : mode) (T : targets) (prevs : frame) (r : result) : bool :=
+  match label_threshold T (thr_label r) with
+  | None => false
+  | Some t => existsb (fun p => is_tp_own m T p && is_same r p) prevs || is_correct m t r
+  end.
+Definition spec_sw_own (m : mode) (T : targets) (prevs : frame) (r : result) : bool :=
+  match label_threshold T (thr_label r) with
+  | None => false
+  | Some t => is_correct m t r && negb (existsb (fun p => is_tp_own m T p && is_same r p) prevs)
+              && existsb (fun p => is_tp_own m T p && is_switched r p) prevs
+  end.
